@@ -5,7 +5,7 @@ HOOKS = dict(
     guard='--cfg fuellabs_fuel_vm_verif',
     enable='RUSTFLAGS="--cfg fuellabs_fuel_vm_verif" FUELLABS_FUEL_VM_VERIF_DIR=/verif/harness cargo kani -p fuel-vm ... (set by lib/kanirun.py for in-crate harnesses; harnesses in /verif/harness/ext need no hooks)',
     baseline_off_cmd=BASELINE_OFF,
-    source_commits=['ce0b50b', 'd909ef3', 'a27ba0d'],
+    source_commits=['ce0b50b', 'd909ef3', 'a27ba0d', '8922f88', 'ee686b4'],
     add_only=True,
 )
 NOTES = ("Every check is `./bin/check <id>`: it rebuilds the Kani goto programs from /repo's working tree, runs one CBMC/cadical "
